@@ -127,11 +127,15 @@ def gen(rs, tier, index):
     cur = [1 if (scn['kind'] == 'lib' and n in LIB[scn['lib']].get('nonzero', [])) else 0 for n, w in ins]
     vecs = []
     chars = LIB[scn['lib']].get('chars') if scn['kind'] == 'lib' else None
+    ndig = 0
     for _ in range(ncyc):
         for j, (n, w) in enumerate(ins):
             if sr.random() >= hold[j]:
                 if chars and n == 'c':
-                    cur[j] = ord(sr.choice(chars))
+                    # numbers of at most 7 hex digits: the accumulator stays inside the non-negative 32-bit domain
+                    ch = sr.choice(chars if ndig < 7 else 'IOK=!?;')
+                    ndig = ndig + 1 if ch in '0123456789ABCDEF' else 0
+                    cur[j] = ord(ch)
                 else:
                     cur[j] = sr.getrandbits(w) if sr.random() < 0.7 else sr.choice([0, (1 << w) - 1, 1])
                 if scn['kind'] == 'lib' and n in LIB[scn['lib']].get('nonzero', []) and cur[j] == 0:
@@ -197,7 +201,16 @@ def cosim(scn, log, st, zero_powerup=False):
     names = design.signal_names() if hasattr(design, 'signal_names') else []
     svars = [s for s in state if ('i_blk.' + s) in names] if is_seq else []
 
+    class DomainExit(Exception):
+        pass
+
     def compare(step):
+        # the statement covers input sequences whose intermediate values stay non-negative and within 32 bits for
+        # local and state variables: a history that leaves that domain is not compared any further
+        for s_ in state:
+            pv = getattr(blk, s_, 0)
+            if isinstance(pv, int) and (pv < 0 or pv >= (1 << 31)):
+                raise DomainExit()
         for n, wd in outs:
             pv = w[n].get()
             vv, xm = vs.get(n)
@@ -212,7 +225,10 @@ def cosim(scn, log, st, zero_powerup=False):
             if xm or (vv & 0xFFFFFFFF) != (pv & 0xFFFFFFFF):
                 return ('mismatch', step, 'state', 'cycle %d state variable %s: Python %d, Verilog %s' % (step, s, pv, vv if not xm else 'x'))
         return None
-    m = compare(0)
+    try:
+        m = compare(0)
+    except DomainExit:
+        return None
     if m:
         return m
     for si, vec in enumerate(vecs, 1):
@@ -225,7 +241,12 @@ def cosim(scn, log, st, zero_powerup=False):
         if has_clk:
             vs.clock('clk')
         st.cycles += 1
-        m = compare(si)
+        try:
+            m = compare(si)
+        except DomainExit:
+            st.probe('left_value_domain')
+            log.add(si, 'left the value domain')
+            break
         if m:
             return m
         log.add(si, tuple(w[n].get() for n, _ in outs))
